@@ -17,8 +17,9 @@
     fn print(x) { print_string(ToString.str(x)) }     fn println(x) { print_string(ToString.str(x) .. "\n") }
 
 `a .. b` is `format_append(a, b)`; on an operand that already is a string `ToString.str` is the identity,
-so a chain `s .. x .. t` is `(s ++ str x) ++ t`.  Floats are outside this model (their text is Rust's
-`f64::to_string`, tied by correspondence only elsewhere).
+so a chain `s .. x .. t` is `(s ++ str x) ++ t`.  Floats, values of user types and channels with their own `ToString`
+enter as `ext` leaves carrying the text their own `str` yields (for a float Rust's `f64::to_string`, trusted): the
+model fixes how the built-in containers splice that text in, not the text itself.
 -/
 namespace Abra.Lib.Render
 
